@@ -413,6 +413,7 @@ pub fn gen(prop: &str, tier: &str, seed: u64) -> Vec<String> {
                 fam_pairs("rel", win, &p, &mut out);
                 let big = if win { dom_win(tier, seed) } else { dom_unix(tier, seed) };
                 fam_unary("hash", win, &big, &mut out);
+                fam_unary("hashspec", win, &big, &mut out);
             }
         }
         "C06" => {
